@@ -46,9 +46,6 @@ Definition check_obs (r : rmv) (o : obs) : bool :=
 
 (** a selector history: after each use_* call (selector, warned, what is read, and the value and
     uncertainty of k * a + c computed by the derivative method afterwards) *)
-Definition lin_value (k c : Q) (r : rmv) : Q := k * r_value r + c.
-Definition lin_err_sq (k : Q) (r : rmv) : Q := k * k * r_err_sq r.
-
 Fixpoint check_sels (k c : Q) (r : rmv) (h : list (sel * bool * obs * (Q * Q))) : bool :=
   match h with
   | [] => true
@@ -93,3 +90,8 @@ Definition mk_obs (raw : list Q) (l : list Q) (wm pe : option Q) : obs :=
   | _ => {| o_raw := []; o_mean := 0; o_std := -1; o_eom := -1; o_wmean := None; o_perr := None;
             o_value := 0; o_error := -1 |}
   end.
+
+(** construction with a malformed uncertainty array: (readings, uncertainties, accepted?) *)
+Definition check_ctor (c : list Q * list Q * bool) : bool :=
+  let '(xs, ss, ok) := c in
+  Bool.eqb (match rmv_make xs ss with Some _ => true | None => false end) ok.
